@@ -324,6 +324,19 @@ def law_union_of_nested(rec):
         rec.violation("nesting", {"law": ["union-of-nested", "three-levels"]}, "three-level nestings of sibling annotations do not keep their own dtypes", mechanism="three-level-siblings-collide")
 
 
+def _typevars_with_default():
+    """PEP 696: a TypeVar's DEFAULT is not a bound - an unconstrained TypeVar with a default still stands for any array-like"""
+    out = []
+    try:
+        import typing_extensions as te
+
+        out.append((te.TypeVar("TD", default=np.ndarray), typing.Any))
+        out.append((te.TypeVar("TDB", bound=np.ndarray, default=np.ndarray), np.ndarray))
+    except Exception:  # noqa
+        pass
+    return out
+
+
 def law_typevars(rec):
     import jax
 
@@ -335,6 +348,7 @@ def law_typevars(rec):
         (typing.TypeVar("TC", np.ndarray, jax.Array), typing.Union[np.ndarray, jax.Array]),
         (typing.TypeVar("TC3", np.ndarray, jax.Array, real.Duck), typing.Union[np.ndarray, jax.Array, real.Duck]),
         (typing.TypeVar("TP"), typing.Any),
+    ] + _typevars_with_default() + [
         (typing.TypeVar("TU", bound=typing.Union[np.ndarray, real.Duck]), typing.Union[np.ndarray, real.Duck]),
     ]
     for cname in ("Float", "Shaped", "Int8", "Num"):
@@ -413,6 +427,17 @@ def law_any_arraylike(rec):
         vals[f"duck(list {list(shp)})"] = (real.Duck(list(shp), "float32"), shp)
         vals[f"duck(Seq {shp})"] = (real.Duck(Seq(shp), "float32"), shp)
         vals[f"duck(tuple-subclass {shp})"] = (real.Duck(Size(shp), "float32"), shp)
+    class Delegating:
+        """a wrapper that forwards attribute access (shape, dtype, ...) to the array it holds via __getattr__"""
+
+        def __init__(self, a):
+            self.__dict__["_a"] = a
+
+        def __getattr__(self, name):
+            return getattr(self.__dict__["_a"], name)
+
+    for shp in ((2, 3), (), (3,)):
+        vals[f"delegating-wrapper{shp}"] = (Delegating(real.np_array(shp)), shp)
     try:
         import tensorflow as tf
 
